@@ -18,6 +18,24 @@ impl<T> SerialMap<T> {
         ensures r.elems@ == Map::<u32, T>::empty(), r.next == 0,
     //@end
 
+    //@include _shared/serial_map_specs.rs
+
+    // `insert` hands out the FIRST serial at or after the counter that is not pending (cyclically), records the call under it
+    // and advances the counter past it: serials are not reused while anything newer could still be confused with them.
+    // Termination is not proved (the loop spins forever when all 2^32 serials are pending).
+    //@fn broker/src/serial_map.rs SerialMap::insert tail-loop attr=verifier::exec_allows_no_decreases_clause
+        ensures
+            !old(self).elems@.contains_key(r),
+            final(self).elems@ =~= old(self).elems@.insert(r, obj),
+            final(self).next == r.wrapping_add(1),
+            forall|s: u32| #![trigger old(self).elems@.contains_key(s)] Self::between(old(self).next, r, s) ==> old(self).elems@.contains_key(s),
+    //@ghost bare-loop 0
+        invariant
+            self.elems@ == old(self).elems@,
+            forall|s: u32| #![trigger old(self).elems@.contains_key(s)] Self::between(old(self).next, self.next, s) ==> old(self).elems@.contains_key(s),
+            // the counter has not wrapped all the way round to where it started, unless every serial it passed is pending
+    //@end
+
     //@fn broker/src/serial_map.rs SerialMap::get_mut
         ensures
             match r {
